@@ -1,2 +1,126 @@
+//! Vector field / point hooks (AVX2, IFMA), bound-monitor reports (C01, C03, C11, C12).
 use crate::*;
-pub fn register(_m: &mut HashMap<&'static str, OpFn>) {}
+#[allow(unused_imports)]
+use curve25519_dalek::verif::RawVec;
+
+#[allow(dead_code)]
+fn raw_tok(r: &RawVec, n: usize) -> String {
+    let mut s = String::from("v");
+    for i in 0..n {
+        if i > 0 {
+            s.push(',');
+        }
+        s.push_str(&format!("{:x}", r[i]));
+    }
+    s
+}
+
+#[allow(dead_code)]
+fn parse_raw(t: &str, n: usize) -> RawVec {
+    let l = parse_limbs(t.strip_prefix('v').unwrap_or_else(|| panic!("ARG: raw vec")));
+    if l.len() != n {
+        panic!("ARG: raw vec lane count");
+    }
+    let mut r = [0u64; 40];
+    r[..n].copy_from_slice(&l);
+    r
+}
+
+#[allow(dead_code)]
+fn consts4(a: &A, i: usize) -> (u32, u32, u32, u32) {
+    let l = a.list(i);
+    let g = |k: usize| -> u32 { l[k].parse().unwrap_or_else(|_| panic!("ARG: const")) };
+    (g(0), g(1), g(2), g(3))
+}
+
+macro_rules! vec_ops {
+    ($m:ident, $modname:ident, $prefix:literal, $n:expr, $square:ident) => {{
+        use curve25519_dalek::verif::$modname as V;
+        $m.insert(concat!($prefix, ".new"), |a| {
+            vec![raw_tok(&V::new(&[a.fe(0), a.fe(1), a.fe(2), a.fe(3)]), $n)]
+        });
+        $m.insert(concat!($prefix, ".split"), |a| {
+            let s = V::split(&parse_raw(a.tok(0), $n));
+            let mut o = Vec::new();
+            for f in s.iter() {
+                o.extend(fe_out(f));
+            }
+            o
+        });
+        $m.insert(concat!($prefix, ".op"), |a| {
+            let name = a.tok(0);
+            let x = parse_raw(a.tok(1), $n);
+            let r = match name {
+                "mul" => V::mul(&x, &parse_raw(a.tok(2), $n)),
+                "square" => V::$square(&x),
+                "reduce" => V::reduce(&x),
+                "negate_lazy" => V::negate_lazy(&x),
+                "neg" => V::neg(&x),
+                "diff_sum" => V::diff_sum(&x),
+                "add" => V::add(&x, &parse_raw(a.tok(2), $n)),
+                "shuffle" => V::shuffle(&x, a.tok(2)),
+                "blend" => V::blend(&x, &parse_raw(a.tok(2), $n), a.tok(3)),
+                "mul_consts" => V::mul_consts(&x, consts4(a, 2)),
+                "csel" => V::conditional_select(&x, &parse_raw(a.tok(2), $n), a.boolean(3)),
+                _ => panic!("ARG: vec op"),
+            };
+            vec![raw_tok(&r, $n)]
+        });
+        $m.insert(concat!($prefix, ".pt"), |a| {
+            let name = a.tok(0);
+            match name {
+                "ext_from_edwards" => vec![raw_tok(&V::ext_from_edwards(&a.ed(1)), $n)],
+                "ext_to_edwards" => ed_out(&V::ext_to_edwards(&parse_raw(a.tok(1), $n))),
+                "ext_double" => vec![raw_tok(&V::ext_double(&parse_raw(a.tok(1), $n)), $n)],
+                "ext_pow2" => vec![raw_tok(&V::ext_mul_by_pow_2(&parse_raw(a.tok(1), $n), a.int(2) as u32), $n)],
+                "cached_from_ext" => vec![raw_tok(&V::cached_from_ext(&parse_raw(a.tok(1), $n)), $n)],
+                "cached_neg" => vec![raw_tok(&V::cached_neg(&parse_raw(a.tok(1), $n)), $n)],
+                "ext_add_cached" => vec![raw_tok(
+                    &V::ext_add_cached(&parse_raw(a.tok(1), $n), &parse_raw(a.tok(2), $n)),
+                    $n,
+                )],
+                "ext_sub_cached" => vec![raw_tok(
+                    &V::ext_sub_cached(&parse_raw(a.tok(1), $n), &parse_raw(a.tok(2), $n)),
+                    $n,
+                )],
+                "table" => {
+                    let t = V::table(a.int(1) as u32, &a.ed(2));
+                    vec![list_tok(&t.iter().map(|r| raw_tok(r, $n)).collect::<Vec<_>>())]
+                }
+                "select" => {
+                    let x: i64 = a.tok(2).parse().unwrap_or_else(|_| panic!("ARG: digit"));
+                    vec![raw_tok(&V::table_select(&a.ed(1), x as i8), $n)]
+                }
+                _ => panic!("ARG: vec pt op"),
+            }
+        });
+        $m.insert(concat!($prefix, ".consts"), |_a| {
+            let mut o = Vec::new();
+            for (name, l) in V::constants() {
+                o.push(format!("{}={}", name, l.iter().map(|x| format!("{:x}", x)).collect::<Vec<_>>().join(",")));
+            }
+            o
+        });
+    }};
+}
+
+pub fn register(m: &mut HashMap<&'static str, OpFn>) {
+    #[cfg(vd_avx2)]
+    vec_ops!(m, avx2, "vec.avx2", 40, square_and_negate_d);
+    #[cfg(vd_ifma)]
+    vec_ops!(m, ifma, "vec.ifma", 20, square);
+    m.insert("bounds.report", |_a| {
+        use curve25519_dalek::verif::bounds;
+        let mut o = vec![tb(cfg!(vd_bounds))];
+        for s in 0..bounds::SITES {
+            let (c, e, od, x) = bounds::report(s);
+            let (le, lo) = bounds::LIMITS[s];
+            o.push(format!("{}:{}:{}:{}:{}:{}:{}", s, c, e, od, x, le, lo));
+        }
+        o
+    });
+    m.insert("bounds.reset", |_a| {
+        curve25519_dalek::verif::bounds::reset();
+        Vec::new()
+    });
+}
